@@ -21,6 +21,7 @@ func init() {
 			"R20.3: close() flushes every track (writeBuffered(true)) before closing its block writer and clears the writer; diskConn.Close and Client.Close reach it for every connection; PushConn closes the connection it replaces or removes. " +
 			"R20.4: the only call that writes a block is in writeBuffered and executes only with a non-nil writer, a valid origin and a non-nil sample; the data written is that sample's, the timestamp is computed from the timestamp popped with it minus the track origin; stores to diskTrack.writer happen only in initWriter and close; video writers are created only at a keyframe sample. " +
 			"R20.5: recovery asks for exactly the numbers strictly between the last and the current packet (lastSeqno+i with 1 <= i < seqno-lastSeqno), and the forward-jump branch records the current number as last. " +
+			"R20.7: wherever a duration is converted into RTP ticks that enter a track's origin, the clock rate used is that track's own (directly, or the clockrate parameter of a method whose call sites pass the receiver's own rate). " +
 			"R20.6: the container description: codec id, track type and document type agree with the codec of each track; track numbers are position+1 in both description and entry; writers are assigned to tracks in the same order after the count was compared.",
 		NotDecided: []string{
 			"frame assembly, de-duplication and ordering inside the pinned pion sample builder (K1, K2 of the design are defects of that dependency, outside the module)",
@@ -41,6 +42,7 @@ func runC20(c *Ctx) {
 	c.Rule("R20.4", "E2", "block write only with writer, origin and sample; data and timestamp of the popped sample; writer stores confined", 6)
 	c.Rule("R20.5", "E6/E7", "recovery range is (last, current) exclusive; last is advanced", 3)
 	c.Rule("R20.6", "E4", "container description agrees with the tracks", 4)
+	c.Rule("R20.7", "E4", "a duration becomes RTP ticks of a track with that track's own clock rate", 5)
 	pk := p.Pkg("diskwriter")
 	if pk == nil {
 		c.Unknown("R20.1", "anchors", 0, "package diskwriter not found")
@@ -171,6 +173,7 @@ func runC20(c *Ctx) {
 	checkSampleWrite(c, "R20.4")
 	checkRecoveryRange(c, "R20.5")
 	checkContainer(c, "R20.6")
+	checkClockRates(c, "R20.7")
 }
 
 // isFreshAt: the expression's value at node `at` is an allocation of this invocation.
@@ -845,4 +848,127 @@ func checkContainer(c *Ctx, rule string) {
 		return true
 	})
 	c.Check(okDoc && nFalse == 1, rule, "H.264 recordings are declared as Matroska", iw.Pos(), "!isWebm => extension mkv and DocType matroska", "an H.264 recording is declared as WebM (or a VPx one as Matroska with a .webm name)")
+}
+
+// R20.7: unit consistency of the origin arithmetic: a duration is converted
+// to RTP ticks for track X with X's own clock rate.
+func checkClockRates(c *Ctx, rule string) {
+	p := c.P
+	pk := p.Pkg("diskwriter")
+	fOrigin := p.Field("diskwriter", "diskTrack", "origin")
+	if pk == nil || fOrigin == nil {
+		c.Unknown(rule, "anchors", 0, "diskwriter / diskTrack.origin not found")
+		return
+	}
+	k := newKeyer()
+	n := 0
+	isConv := func(fs *FuncSrc, call *ast.CallExpr) bool {
+		f := calleeOf(&CallSite{Call: call, In: fs})
+		return f != nil && f.Pkg() != nil && strings.HasSuffix(f.Pkg().Path(), "/rtptime") && (f.Name() == "FromDuration" || f.Name() == "ToDuration") && len(call.Args) == 2
+	}
+	for _, fs := range p.Sources() {
+		if fs.Pkg != pk || fs.Lit != nil {
+			continue
+		}
+		info := fs.Pkg.TypesInfo
+		recvName := ""
+		if fs.Decl != nil && fs.Decl.Recv != nil && len(fs.Decl.Recv.List) == 1 && len(fs.Decl.Recv.List[0].Names) == 1 {
+			recvName = fs.Decl.Recv.List[0].Names[0].Name
+		}
+		var rateParam types.Object
+		for _, po := range fs.params(info) {
+			if po != nil && po.Name() == "clockrate" {
+				rateParam = po
+			}
+		}
+		okRate := func(e ast.Expr, base string) bool {
+			e = unparen(e)
+			if types.ExprString(e) == base+".remote.Codec().ClockRate" {
+				return true
+			}
+			if id, ok := e.(*ast.Ident); ok && rateParam != nil && info.Uses[id] == rateParam && base == recvName {
+				return true
+			}
+			return false
+		}
+		// conversions reached from the right-hand side of a store to <base>.origin
+		var convsOf func(e ast.Node, depth int) []*ast.CallExpr
+		convsOf = func(e ast.Node, depth int) []*ast.CallExpr {
+			var out []*ast.CallExpr
+			if e == nil || depth > 3 {
+				return out
+			}
+			ast.Inspect(e, func(m ast.Node) bool {
+				switch x := m.(type) {
+				case *ast.FuncLit:
+					return false
+				case *ast.CallExpr:
+					if isConv(fs, x) {
+						out = append(out, x)
+					}
+				case *ast.Ident:
+					// a local defined from a conversion
+					if v, isV := info.Uses[x].(*types.Var); isV && v.Parent() != nil && v.Parent() != fs.Pkg.Types.Scope() {
+						ast.Inspect(fs.Body(), func(q ast.Node) bool {
+							as, ok := q.(*ast.AssignStmt)
+							if !ok || len(as.Lhs) != 1 || len(as.Rhs) != 1 {
+								return true
+							}
+							if lid, ok := as.Lhs[0].(*ast.Ident); ok && info.Defs[lid] == types.Object(v) {
+								out = append(out, convsOf(as.Rhs[0], depth+1)...)
+							}
+							return true
+						})
+					}
+				}
+				return true
+			})
+			return out
+		}
+		ast.Inspect(fs.Body(), func(nd ast.Node) bool {
+			as, ok := nd.(*ast.AssignStmt)
+			if !ok || len(as.Lhs) != 1 || len(as.Rhs) != 1 {
+				return true
+			}
+			sel, ok := unparen(as.Lhs[0]).(*ast.SelectorExpr)
+			if !ok {
+				return true
+			}
+			if s := info.Selections[sel]; s == nil || s.Obj() != types.Object(fOrigin) {
+				return true
+			}
+			base := types.ExprString(sel.X)
+			for _, call := range convsOf(as.Rhs[0], 0) {
+				f := calleeOf(&CallSite{Call: call, In: fs})
+				if f.Name() != "FromDuration" {
+					continue // a duration computed from ticks is checked where the ticks come from
+				}
+				n++
+				c.Check(okRate(call.Args[1], base), rule, k.key("ticks for", base+".origin", "in", fs.Name), call.Pos(), "rtptime.FromDuration(_, "+types.ExprString(call.Args[1])+"): the clock rate of "+base, "a duration is converted to RTP ticks for "+base+" with another track's clock rate ("+types.ExprString(call.Args[1])+"): audio and video origins drift apart by the ratio of the clock rates")
+			}
+			return true
+		})
+		// call sites that pass a clock rate: the receiver's own
+		ast.Inspect(fs.Body(), func(nd ast.Node) bool {
+			call, ok := nd.(*ast.CallExpr)
+			if !ok {
+				return true
+			}
+			f := calleeOf(&CallSite{Call: call, In: fs})
+			if f == nil || !(fnIs(f, "diskwriter", "diskTrack", "setOrigin") || fnIs(f, "diskwriter", "diskTrack", "setTimeOffset")) {
+				return true
+			}
+			r := recvExpr(call)
+			if r == nil {
+				return true
+			}
+			n++
+			last := call.Args[len(call.Args)-1]
+			c.Check(types.ExprString(unparen(last)) == types.ExprString(r)+".remote.Codec().ClockRate", rule, k.key("clock rate passed to", f.Name(), "in", fs.Name), call.Pos(), "the receiver's own clock rate", "a track's origin is computed with another track's clock rate")
+			return true
+		})
+	}
+	if n < 5 {
+		c.Bad(rule, "origin conversions found", 0, "only %d clock-rate uses found (6 confirmed by hand)", n)
+	}
 }
